@@ -399,6 +399,14 @@ func (pp *panicProver) facts(b *ssa.BasicBlock) []pedge {
 			continue
 		}
 		x, y := pp.canon(bo.X), pp.canon(bo.Y)
+		// operands that are never negative (the base of the running function's
+		// scopes, a counter field, …) bound whatever is compared with them
+		if x.term != "" && pp.nonNegValue(bo.X, 0) {
+			addLE(lin{"", 0}, lin{x.term, 0}, false)
+		}
+		if y.term != "" && pp.nonNegValue(bo.Y, 0) {
+			addLE(lin{"", 0}, lin{y.term, 0}, false)
+		}
 		op := bo.Op
 		if !branch {
 			switch op {
@@ -545,10 +553,11 @@ func (pp *panicProver) nonNegValue(v ssa.Value, depth int) bool {
 		if cal := x.Call.StaticCallee(); cal != nil && len(cal.Blocks) > 0 {
 			all := true
 			n := 0
+			cp := newPanicProver(pp.p, cal)
 			for _, b := range cal.Blocks {
 				if ret, ok := terminator(b).(*ssa.Return); ok && len(ret.Results) == 1 {
 					n++
-					if k, ok := constInt(ret.Results[0]); !ok || k < 0 {
+					if !cp.nonNegValue(ret.Results[0], depth+1) {
 						all = false
 					}
 				}
@@ -560,9 +569,67 @@ func (pp *panicProver) nonNegValue(v ssa.Value, depth int) bool {
 			if fa, ok := x.X.(*ssa.FieldAddr); ok {
 				return counterField(pp.p, fa)
 			}
+			// an element of a slice field that only ever receives non-negative values
+			if ia, ok := x.X.(*ssa.IndexAddr); ok {
+				if ld, ok := ia.X.(*ssa.UnOp); ok && ld.Op == token.MUL {
+					if fa, ok := ld.X.(*ssa.FieldAddr); ok {
+						return nonNegSliceField(pp.p, fa)
+					}
+				}
+			}
 		}
 	}
 	return false
+}
+
+// nonNegSliceField: every store into the slice field is an append of
+// non-negative values, a re-slice of itself, or empty.
+func nonNegSliceField(p *Program, fa *ssa.FieldAddr) bool {
+	key := fmt.Sprintf("slice:%s#%d", deref(fa.X.Type()).String(), fa.Field)
+	if v, ok := counterCache[key]; ok {
+		return v
+	}
+	counterCache[key] = true
+	good := true
+	for _, fn := range p.LibFns {
+		for _, b := range fn.Blocks {
+			for _, ins := range b.Instrs {
+				st, ok := ins.(*ssa.Store)
+				if !ok {
+					continue
+				}
+				fa2, ok := st.Addr.(*ssa.FieldAddr)
+				if !ok || fa2.Field != fa.Field || !types.Identical(deref(fa2.X.Type()), deref(fa.X.Type())) {
+					continue
+				}
+				switch v := st.Val.(type) {
+				case *ssa.Slice:
+				case *ssa.Const:
+				case *ssa.Call:
+					if ap, ok := isBuiltinCall(v, "append"); ok {
+						vals, known := varargsOf(ap.Call.Args[1])
+						if !known {
+							good = false
+						}
+						pp := newPanicProver(p, fn)
+						for _, e := range vals {
+							if !pp.nonNegValue(e, 0) {
+								good = false
+							}
+						}
+					} else {
+						good = false
+					}
+				default:
+					if !isFreshEmpty(st.Val) {
+						good = false
+					}
+				}
+			}
+		}
+	}
+	counterCache[key] = good
+	return good
 }
 
 var counterCache = map[string]bool{}
